@@ -138,7 +138,7 @@ fn check_rejections(part: &mut Part) {
 }
 
 pub fn run(ctx: &Ctx) -> i32 {
-  let b: u32 = if ctx.quick() { 4 } else { 7 };
+  let b: u32 = if ctx.quick() { 5 } else { 8 };
   let mut nodes = plane_nodes(b);
   for d in [1u8, 2, 5, 10, 20, 29] {
     nodes.extend(deep_border_nodes(d));
